@@ -24,8 +24,9 @@ type Hooks struct {
 	Observe func(w *W, wl *Workload)            // after every step
 	Final   func(w *W, wl *Workload, quiet bool) // after heal
 	// NoCrash disables process crashes (properties whose quantifier has none).
-	MaxChaos int
+	MaxChaos   int
 	HealRounds int
+	NoXRs      bool // the world's XRs come from claims only
 }
 
 // Run is the generic W-xr / W-claim run.
@@ -36,6 +37,9 @@ func Run(s *sim.Sim, res *runner.Result, h Hooks) {
 		o = h.Opts(t)
 	}
 	wl := Draw(t, h.Params)
+	if h.NoXRs {
+		wl.XRs = nil
+	}
 	max := h.MaxChaos
 	if max == 0 {
 		max = 160
@@ -66,7 +70,7 @@ func Run(s *sim.Sim, res *runner.Result, h Hooks) {
 		res.Trouble = "world did not boot (XRD controllers did not start the XR controller)"
 		return
 	}
-	if !o.Claims {
+	if !h.NoXRs {
 		if err := w.CreateXRs(wl); err != nil {
 			res.Trouble = err.Error()
 			return
